@@ -191,6 +191,10 @@ def build_ops(ctx, drv, htoy):
         classes.append(cls)
         if i % 50 == 49:
             ops.append(canary(i)); classes.append("canary")
+    # stalled clients (each costs the daemon's I/O timeout of 2 s): mid-header, after the header, mid-body
+    good = cc.dec_req(creds[0]) if creds else cc.enc_req(data=b"x" * 40)
+    for k in ([5, 11, 30] if ctx.tier == "quick" else [0, 1, 5, 10, 11, 12, 30, len(good) - 1]):
+        ops.append("cred req %s now=1000050 peer=500:600 mem=- stall=%d" % (cc.hx(good), k)); classes.append("stall")
     ops.append(canary(0)); classes.append("canary")
     return ops, classes
 
@@ -203,8 +207,12 @@ def make_oracle(classes):
         if outl.strip() == "oob":
             return None       # only the model prints this; handled as a difference
         rsp, kv = cc.rsp_of(outl)
+        if "stalled-client-dropped-after" in outl:
+            return "stalled client was not dropped at the I/O timeout (%s)" % outl.split()[-1]
         if kv.get("leak") != "0":
             return "memory leaked while serving this request (LeakSanitizer)"
+        if cls == "stall" and rsp.raw:
+            return "a stalled (incomplete) request was answered"
         if rsp.raw:
             if not rsp.ok or rsp.kind not in ("enc", "dec"):
                 return "reply is not a well-formed ENC_RSP/DEC_RSP"
